@@ -367,6 +367,10 @@ def run_single(job, acc):
                 if nt:
                     acc.nontrivial += 1
                 run_history(acc, ops, "single")
+                if route == "BF" and child.get("name") != "child":
+                    # a hierarchical-looking instance name (flattened designs): core.m1
+                    acc.states += 1
+                    run_history(acc, [["B", child, "core.m1", conn], ["F", None, "core.m1", None]], "single", strip=False)
         acc.sample({"child": child})
         if acc.out_of_time():
             break
